@@ -259,6 +259,9 @@ func (p *parser) parseObjectPropertyKey() (string, string) {
 		// null, false, class, etc.
 		if matchIdentifier.MatchString(literal) {
 			value = literal
+		} else {
+			// Punctuators, malformed literals, ... are not property names.
+			p.errorUnexpectedToken(tkn)
 		}
 	}
 	return literal, value
